@@ -246,10 +246,24 @@ namespace pika::ensure_started_detail {
             shared_state(Sender_&& sender, allocator_type const& alloc)
               : alloc(alloc)
             {
-                os.emplace(pika::detail::with_result_of([&]() {
-                    return pika::execution::experimental::connect(
-                        std::forward<Sender_>(sender), ensure_started_receiver{this});
-                }));
+                // The receiver owns a reference to this shared state. Hold one more while the
+                // predecessor is connected: if connect throws, destroying the receiver must not drop
+                // the count to zero and destroy/deallocate the object under construction (the
+                // constructor's unwinding and the owner of the allocation do that).
+                ++reference_count;
+                try
+                {
+                    os.emplace(pika::detail::with_result_of([&]() {
+                        return pika::execution::experimental::connect(
+                            std::forward<Sender_>(sender), ensure_started_receiver{this});
+                    }));
+                }
+                catch (...)
+                {
+                    --reference_count;
+                    throw;
+                }
+                --reference_count;
             }
 
             template <typename Receiver>
